@@ -124,7 +124,13 @@ def ok_of(g, okfns):
         return conj(conj(ok_of(g[1], okfns), strip(g[1])), ok_of(g[2], okfns))
     if t == "some":
         return ok_of(g[1], okfns)
-    if t in ("bindopt", "fun"):
+    if t == "bindopt":
+        # C07 round 2: `match callee fuel args with None => None | Some r => <no further checks>`:
+        # the side conditions are those of the bound call's arguments (a loop there still raises below)
+        if ok_of(g[3], okfns) == TRUE:
+            return ok_of(g[2], okfns)
+        raise NotImplementedError("ok rendering of loops")
+    if t == "fun":
         raise NotImplementedError("ok rendering of loops")
     raise ValueError(t)
 
